@@ -145,7 +145,11 @@ impl Db {
     }
 
     fn open_inner(in_memory: bool) -> Result<Self> {
+        #[cfg(feature = "verif")]
+        crate::verif::point("open.start", "", in_memory as usize, 0)?;
         let mut config = crate::config::open()?;
+        #[cfg(feature = "verif")]
+        crate::verif::point("open.config_read", "", 0, 0)?;
 
         let hash = config.hash_assets();
 
@@ -159,12 +163,16 @@ impl Db {
             Index::create_in_ram(schema)
         } else {
             let (index_rebuild, index) = open_index(&config)?;
+            #[cfg(feature = "verif")]
+            crate::verif::point("index.ready", "", index_rebuild as usize, 0)?;
             rebuild = rebuild || index_rebuild;
             index
         };
 
         let tokenizer = TextAnalyzer::from(NgramTokenizer::new(1, 7, true)).filter(LowerCaser);
         index.tokenizers().register("ngram", tokenizer);
+        #[cfg(feature = "verif")]
+        crate::verif::wrap_tokenizer(&index);
 
         let schema = index.schema();
 
@@ -197,8 +205,14 @@ impl Db {
         if rebuild {
             log::info!("rebuilding search index at {}", config.index_path.display());
 
+            #[cfg(feature = "verif")]
+            crate::verif::point("rebuild.start", "", 0, 0)?;
             let mut writer = db.index.writer(50_000_000)?;
+            #[cfg(feature = "verif")]
+            crate::verif::point("rebuild.writer_created", "", 0, 0)?;
             writer.delete_all_documents()?;
+            #[cfg(feature = "verif")]
+            crate::verif::point("rebuild.cleared", "", 0, 0)?;
 
             for name in config.assets() {
                 if name == SOURCES_BIN_GZ {
@@ -211,8 +225,14 @@ impl Db {
                 }
             }
 
+            #[cfg(feature = "verif")]
+            crate::verif::point("rebuild.before_commit", "", 0, 0)?;
             writer.commit()?;
+            #[cfg(feature = "verif")]
+            crate::verif::point("rebuild.committed", "", 0, 0)?;
             db.reader.reload()?;
+            #[cfg(feature = "verif")]
+            crate::verif::point("rebuild.reloaded", "", 0, 0)?;
 
             config.meta.version = Some(config.this_version.to_owned());
             config.meta.database_hash = Some(hash);
@@ -222,11 +242,15 @@ impl Db {
             }
         }
 
+        #[cfg(feature = "verif")]
+        crate::verif::point("open.done", "", 0, 0)?;
         Ok(db)
     }
 
     /// Perform a lookup over the given string.
     pub(crate) fn lookup(&self, query: &str) -> Result<Option<Match>, LookupError> {
+        #[cfg(feature = "verif")]
+        let verif_phrase = query;
         let searcher = self.reader.searcher();
 
         let query_parser = QueryParser::for_index(&self.index, vec![self.field_name]);
@@ -242,16 +266,24 @@ impl Db {
                     Err(..) => continue,
                 };
 
+                #[cfg(feature = "verif")]
+                crate::verif::lookup(verif_phrase, Some(&c));
                 return Ok(Some(Match::Constant(c)));
             }
         }
 
+        #[cfg(feature = "verif")]
+        crate::verif::lookup(verif_phrase, None);
         Ok(None)
     }
 
     /// Load a document from the given bytes.
     pub(crate) fn load_bytes(&mut self, writer: &mut IndexWriter, bytes: &[u8]) -> Result<()> {
         let doc: Doc = load_bytes(bytes)?;
+        #[cfg(feature = "verif")]
+        let mut verif_i = 0usize;
+        #[cfg(feature = "verif")]
+        crate::verif::point("rebuild.asset_start", "", doc.constants.len(), 0)?;
 
         for c in doc.constants {
             let mut doc = Document::default();
@@ -261,7 +293,15 @@ impl Db {
                 doc.add_text(self.field_name, token.as_ref());
             }
 
+            #[cfg(feature = "verif")]
+            crate::verif::point("rebuild.before_add", "", verif_i, c.tokens.len())?;
             writer.add_document(doc)?;
+            #[cfg(feature = "verif")]
+            crate::verif::point("rebuild.after_add", "", verif_i, c.tokens.len())?;
+            #[cfg(feature = "verif")]
+            {
+                verif_i += 1;
+            }
         }
 
         Ok(())
@@ -275,18 +315,26 @@ fn open_index(config: &crate::config::Config) -> Result<(bool, Index)> {
     };
 
     if !force_rebuild {
+        #[cfg(feature = "verif")]
+        crate::verif::point("index.before_open", "", 0, 0)?;
         if let Ok(index) = Index::open_in_dir(&config.index_path) {
             log::trace!("opened index: {}", config.index_path.display());
             return Ok((false, index));
         }
     }
 
+    #[cfg(feature = "verif")]
+    crate::verif::point("index.before_remove", "", 0, 0)?;
     if config.index_path.is_dir() {
         log::info!("removing index: {}", config.index_path.display());
         fs::remove_dir_all(&config.index_path)?;
+        #[cfg(feature = "verif")]
+        crate::verif::point("index.removed", "", 0, 0)?;
     }
 
     fs::create_dir_all(&config.index_path)?;
+    #[cfg(feature = "verif")]
+    crate::verif::point("index.dir_created", "", 0, 0)?;
     let schema = build_schema();
     Ok((true, Index::create_in_dir(&config.index_path, schema)?))
 }
